@@ -100,6 +100,11 @@ func (p *ProofU) reconstructUcommit(pk *gabikeys.PublicKey) (*big.Int, error) {
 	Ucommit.Mul(Ucommit, R0s).Mod(Ucommit, pk.N)
 
 	for i, miUserResponse := range p.MUserResponses {
+		if i == 0 {
+			// R_0 carries the secret key, whose only response is SResponse: a second response
+			// would allow holders of different secrets to equalise their secret key responses.
+			return nil, errors.New("commitment proof has a second response for the secret key")
+		}
 		Rimi, err := common.ModPow(pk.R[i], miUserResponse, pk.N)
 		if err != nil {
 			return nil, err
